@@ -493,3 +493,93 @@ def _wrap_rtv(m):
 
 
 CUSTOM['pane.util:replace_typevars.bounded'] = _wrap_rtv
+
+
+# ---- C19: file round trips ---------------------------------------------------------------------------------------------------
+def _io_roundtrip(fmt, sink, value, ty, options):
+    import io as _io
+    import os as _os
+    import tempfile
+    import builtins
+    import importlib
+    pio = importlib.import_module('pane.io')
+    res = {'caller_stream_left_open': True, 'path_handle_closed': True}
+    writer = pio.write_json if fmt == 'json' else pio.write_yaml
+    reader = pio.from_json if fmt == 'json' else pio.from_yaml
+    opened = []
+    real_open = builtins.open
+
+    def spy_open(*a, **k):
+        h = real_open(*a, **k)
+        opened.append(h)
+        return h
+    if sink in ('path', 'strpath'):
+        d = tempfile.mkdtemp()
+        p = _os.path.join(d, 'f.' + fmt)
+        target = p if sink == 'strpath' else __import__('pathlib').Path(p)
+        builtins.open = spy_open
+        try:
+            writer(value, target, ty=ty, **options)
+            res['value'] = reader(target, ty)
+        finally:
+            builtins.open = real_open
+            __import__('shutil').rmtree(d, ignore_errors=True)
+        res['path_handle_closed'] = all(h.closed for h in opened) and len(opened) == 2
+    elif sink == 'stream':
+        buf = _io.StringIO()
+        writer(value, buf, ty=ty, **options)
+        res['caller_stream_left_open'] = not buf.closed
+        buf.seek(0)
+        res['value'] = reader(buf, ty)
+        res['caller_stream_left_open'] = res['caller_stream_left_open'] and not buf.closed
+    elif sink == 'realfile':
+        d = tempfile.mkdtemp()
+        p = _os.path.join(d, 'g.' + fmt)
+        try:
+            with real_open(p, 'w', encoding='latin-1') as fh:
+                writer(value, fh, ty=ty, **options)
+                import gc
+                gc.collect()
+                res['caller_stream_left_open'] = not fh.closed
+                if not fh.closed:
+                    fh.flush()
+            with real_open(p, 'r', encoding='utf-8') as fh:
+                res['value'] = reader(fh, ty)
+                res['caller_stream_left_open'] = res['caller_stream_left_open'] and not fh.closed
+        finally:
+            __import__('shutil').rmtree(d, ignore_errors=True)
+    elif sink == 'string':
+        s = value.write_json(**options) if fmt == 'json' else value.write_yaml(**options)
+        res['value'] = type(value).from_jsons(s) if fmt == 'json' else type(value).from_yamls(s)
+    return res
+
+
+def _io_instances(m):
+    out = []
+    vals = [([1, 2, 3], t.List[int]), ({'a': 1.5, 'b': -2.0}, t.Dict[str, float]), (PReq(n=3, m='é'), PReq), (PAlias(width=2, tags=['x', 'ü']), PAlias),
+            (PNest(inner=PReq(n=1)), PNest), ((1, 'a'), t.Tuple[int, str]), (None, t.Optional[int]), ('plain ünï', str),
+            (VA(x=3), t.Annotated[t.Union[VA, VB], Tagged('tag', external=True)]), ([PReq(n=1), PReq(n=2, m='q')], t.List[PReq])]
+    jopts = [{}, {'indent': 2}, {'sort_keys': True}, {'indent': '\t', 'sort_keys': True}]
+    yopts = [{}, {'indent': 4}, {'default_flow_style': True}, {'allow_unicode': False}, {'explicit_start': False, 'explicit_end': True}, {'sort_keys': True, 'width': 20}]
+    for v, ty in vals:
+        for sink in ('path', 'strpath', 'stream', 'realfile') + (('string',) if isinstance(v, PaneBase) else ()):
+            for fmt, opts in (('json', jopts), ('yaml', yopts)):
+                for o in opts:
+                    out.append((_io_roundtrip, ['fmt', 'sink', 'value', 'ty', 'options'], (fmt, sink, v, ty, o), f'roundtrip({fmt}, {sink}, {v!r}, {o})'))
+    return out
+
+
+CUSTOM['pane.io:roundtrip.bounded'] = _io_instances
+
+
+def _yaml_all(value, ty):
+    import io as _io
+    import yaml
+    import importlib
+    pio = importlib.import_module('pane.io')
+    buf = _io.StringIO(yaml.safe_dump_all(value))
+    return pio.from_yaml_all(buf, ty)
+
+
+CUSTOM['pane.io:from_yaml_all.bounded'] = lambda m: [(_yaml_all, ['value', 'ty'], (v, ty), f'from_yaml_all({v!r})') for v, ty in
+                                                     [([1, 2, 3], int), ([1, None, 3], t.Optional[int]), ([None, None], type(None)), ([{'n': 1}, {'n': 2}], PReq), ([], int)]]
